@@ -7,8 +7,10 @@
 //	iA1 iA2 iB1 iB2   syncGenesisHeader(chain A|B, genesis G1|G2), operator-signed (G2 != G1, equally acceptable)
 //	hA  hB            syncBlockHeader(chain, one header H that is valid on top of G1), where H is synthesisable
 //
-// and ALL event sequences up to depth 3 (quick) / 4 (thorough) are explored by BFS over storage dumps
-// (state = full store dump + "a trust root was installed on A / on B" flags).
+// and ALL event sequences up to depth 3 (quick) / 5 (thorough; DESIGN asks for 4) are explored by BFS over storage dumps
+// (state = full store dump + "a trust root was installed on A / on B" flags). A router that keeps the property has
+// 16 reachable states ({none, G1, G2, G1+H} per chain); depth 5 closes that space (fixpoint: every longer sequence
+// revisits an explored state).
 //
 // Oracle per transition:
 //   - once a syncGenesisHeader for chain X has succeeded, every later syncGenesisHeader for X returns an error AND the
@@ -67,8 +69,9 @@ const (
 )
 
 var (
-	r   *ev.Run
-	env *hsenv.Env
+	r         *ev.Run
+	env       *hsenv.Env
+	replayOps []string
 )
 
 func chainIDs(router uint64) [2]uint64 {
@@ -205,6 +208,7 @@ type routerStats struct {
 	ReinstallOK                   int // re-installs that reported success (violations)
 	HdrOK, HdrRejected            int
 	Truncated                     bool
+	Fixpoint                      bool // the BFS frontier ran empty below the depth bound: all sequences of ANY length covered
 	WallS                         float64
 }
 
@@ -359,8 +363,24 @@ func (rc *routerCase) explore(base polyenv.Dump, depth int) (rs routerStats) {
 			}
 		},
 	}
+	if replayOps != nil { // --replay: run exactly the recorded operation list through the same step + oracle
+		cur, path := init, []string(nil)
+		for _, e := range replayOps {
+			if rc.txs[e] == nil {
+				r.HarnessError("replay: router %s has no event %q", rc.name, e)
+			}
+			n, _ := cfg.Step(cur, e)
+			path = append(path, e)
+			cfg.Check(cur, e, n, path)
+			fmt.Printf("replay %-3s ok=%-5v changed=%d err=%s\n", e, n.last.ok, len(n.last.changed), n.last.err)
+			cur = n
+		}
+		rs.States, rs.Transitions, rs.MaxDepth = len(replayOps)+1, len(replayOps), len(replayOps)
+		return
+	}
 	st := mc.BFS(cfg)
 	rs.States, rs.Transitions, rs.MaxDepth, rs.Truncated = st.States, st.Transitions, st.MaxDepth, st.Truncated
+	rs.Fixpoint = !st.Truncated && !st.DepthCapped
 	return
 }
 
@@ -370,7 +390,7 @@ func main() {
 	debug.SetGCPercent(200)
 	debug.SetMemoryLimit(6 << 30)
 	env = hsenv.Setup(0)
-	depth := r.QT(3, 4)
+	depth := r.QT(3, 5)                             // design bound 3 / 4; 5 shows the fixpoint of the routers that keep the property (16 states)
 	if v := os.Getenv("VERIF_C19_DEPTH"); v != "" { // development aid
 		fmt.Sscan(v, &depth)
 	}
@@ -381,6 +401,16 @@ func main() {
 		genCosmos(), genOkex(), genOnt(), genNeo(), genNeo3(), genNeo3Legacy(), genBtc(), genQuorum(),
 		genZil("zilliqa", utils.ZILLIQA_ROUTER), genZil("zilliqalegacy", utils.ZILLIQA_LEGACY_ROUTER), genStarcoin()}
 	only := os.Getenv("VERIF_C19_ONLY") // development aid: restrict to one router
+	if r.ReplayPath != "" {
+		var rep struct {
+			Router string   `json:"router"`
+			Ops    []string `json:"ops"`
+		}
+		if err := r.LoadReplay(&rep); err != nil || len(rep.Ops) == 0 {
+			r.HarnessError("cannot load replay %s: %v", r.ReplayPath, err)
+		}
+		only, replayOps = rep.Router, rep.Ops
+	}
 
 	// base world: genesis + two side chains per router through the real side_chain_manager transactions
 	w := env.NewWorld()
@@ -459,8 +489,8 @@ func main() {
 		}
 		routers[n] = "covered (router id " + fmt.Sprint(rc.router) + "); " + hdr
 		perRouter[n] = rs
-		fmt.Printf("router=%-16s id=%-2d states=%-4d transitions=%-5d first-install-accepted=%-4d reinstall-rejected=%-4d reinstall-ok(!)=%-4d header-ok=%-4d header-rejected=%-4d header-event=%v wall=%.1fs\n",
-			n, rc.router, rs.States, rs.Transitions, rs.Accepted, rs.Rejected, rs.ReinstallOK, rs.HdrOK, rs.HdrRejected, rc.hdr != nil, rs.WallS)
+		fmt.Printf("router=%-16s id=%-2d states=%-4d transitions=%-5d first-install-accepted=%-4d reinstall-rejected=%-4d reinstall-ok(!)=%-4d header-ok=%-4d header-rejected=%-4d header-event=%v fixpoint=%v wall=%.1fs\n",
+			n, rc.router, rs.States, rs.Transitions, rs.Accepted, rs.Rejected, rs.ReinstallOK, rs.HdrOK, rs.HdrRejected, rc.hdr != nil, rs.Fixpoint, rs.WallS)
 		r.Sample(map[string]any{"router": n, "states": rs.States, "transitions": rs.Transitions, "first_install_accepted": rs.Accepted,
 			"reinstall_rejected": rs.Rejected, "reinstall_reported_success": rs.ReinstallOK})
 	}
@@ -477,7 +507,9 @@ func main() {
 		minOps[k] = strings.Join(findings[k].path, " ")
 	}
 	fmt.Printf("C19: violation-keys(%d)=%s\n", len(fkeys), strings.Join(fkeys, ","))
-	r.Require("install-accepted", "reinstall-rejected")
+	if replayOps == nil && only == "" {
+		r.Require("install-accepted", "reinstall-rejected")
+	}
 	r.Assume("ETH: the ethash seal check is skipped by the verif hook (synthetic headers); every other rule of every router is the real code",
 		"block execution derives witnesses from the listed public keys (no signature verification at this layer): the operator witness is the m-of-n entry of the 4 genesis validators",
 		"header timestamps are in the past, so the wall-clock future-block tests are constant",
